@@ -7,6 +7,8 @@ from .common import TRUSTED, Ctx
 
 def check(rep):
     ctx = Ctx(rep)
+    if rep.tier == "thorough":
+        LR.validate_engine(ctx)
     LR.rule_all_munch(ctx, rid="C07.KEYWORD-MUNCH")
     LR.rule_wordsplit(ctx)
     LR.rule_no_dead(ctx)
